@@ -26,7 +26,6 @@ const (
 	kfUnbound   = "K7a-replicated-header-fields-unauthenticated"
 	kfZeroEntry = "K7b-zero-entry-tx-not-replicable"
 	kfEmbedded  = "K7c-embedded-values-precommitted-lost-on-reopen"
-	kfDiscard   = "K7d-precommitted-after-discard-lost-on-reopen"
 	kfStaleBl   = "K7e-tx1-stale-blroot-after-discard"
 )
 
@@ -48,6 +47,7 @@ func TestMain(m *testing.M) {
 			"rewriting a full export into its digest-only form (values replaced by their hashes, flag 1) is not generated as an alteration: the format gives a replica no way to tell it from an export of a truncated primary",
 			"deliveries that wait for a missing predecessor are bounded by a context timeout chosen by the harness; an error caused by that timeout is not a refusal (the transaction may have been precommitted)",
 			"a replica of a replica (re-export of digest-only transactions) is not driven",
+			"DiscardPrecommittedTxsSince does not truncate the tx log (documented: 'if the store is reopened some precommitted transactions may be reloaded. Discarding may need to be redone after re-opening the store'): after a restart of a replica that discarded above its committed id the harness acts like the replicator (discards the tail that is not the primary's again, delivers the stream again) and asserts only that the stream is then accepted and the final state is the primary's; transactions precommitted after the discard may be missing after such a restart",
 			"out of order / concurrently, an honest export may be refused with errors other than the documented ones (e.g. after a discard the in-memory precommit watcher is not moved back, so a delivery that should wait fails at once): the replicator retries, so only 'a refusal has no effect' and 'in-order delivery on an idle replica succeeds' are asserted",
 			"an export refused with 'buffer is full' (window of uncommitted transactions exhausted) has already been written after the last precommitted transaction and is found precommitted after a restart: tolerated, because it is a transaction the replica would have accepted with room in the window (it matters only together with K7a / skipIntegrityCheck)",
 			"store level has no live primary: 'a replica commits only after the primary did' and the acknowledgement rule are checked at database level; the database-level test does not restart the primary, does not discard and does not alter exports",
@@ -58,7 +58,6 @@ func TestMain(m *testing.M) {
 			{ID: kfUnbound, Present: probeUnbound},
 			{ID: kfZeroEntry, Present: probeZeroEntry},
 			{ID: kfEmbedded, Present: probeEmbeddedReopen},
-			{ID: kfDiscard, Present: probeDiscardReopen},
 			{ID: kfStaleBl, Present: probeStaleBlRoot},
 		},
 	})
@@ -460,12 +459,12 @@ type replica struct {
 	forms   map[uint64]map[string]bool // forms ("full"/"digest") that may be what the replica holds for an id
 	allowed uint64                     // highest id passed to AllowCommitUpto (capped by the precommitted id at that time)
 	// ids at which a forged transaction was precommitted and then discarded (it may be found again after a restart)
-	discardedForged   map[uint64]bool
-	discardsSinceOpen int    // DiscardPrecommittedTxsSince calls since the store object was opened
-	everHeld2         bool   // the replica has held a transaction with id >= 2 at some point (K7e)
-	everHeld1         bool   // the replica has held a transaction at some point: its tx log is not empty
-	retired           bool   // holds a committed transaction that is not the primary's: only its prefix is compared
-	forgedAt          uint64 // first id that is not the primary's (0: none)
+	discardedForged map[uint64]bool
+	discardPoints   []uint64 // ids given to DiscardPrecommittedTxsSince that are still above the committed id: the tx log keeps the discarded records in front of what was precommitted afterwards
+	everHeld2       bool     // the replica has held a transaction with id >= 2 at some point (K7e)
+	everHeld1       bool     // the replica has held a transaction at some point: its tx log is not empty
+	retired         bool     // holds a committed transaction that is not the primary's: only its prefix is compared
+	forgedAt        uint64   // first id that is not the primary's (0: none)
 
 	// schedule statistics (non-triviality rule)
 	outOfOrder, refused, caughtUpAfterRefusal int
@@ -1040,7 +1039,7 @@ func (h *harness) stepDiscard(r *replica) {
 		h.failf(r, nil, "DiscardPrecommittedTxsSince(%d) with %s: n=%d err=%v", x, before, n, err)
 	}
 	h.c.Descf("R%d:discard%d", r.i, x)
-	r.discardsSinceOpen++
+	r.discardPoints = append(r.discardPoints, x)
 	for id := x; id <= before.p; id++ {
 		delete(r.forms, id)
 	}
@@ -1072,18 +1071,18 @@ func (h *harness) stepReopen(r *replica) {
 	if r.cfg.ExternalAllow {
 		r.allowed = after.c
 	}
+	stale := r.staleTail(after.c)
 	if after.p < before.p {
-		kf := ""
 		switch {
+		case stale:
+			// by design (see staleTail): the replicator discards again and fetches the stream again
+			h.c.Label("precommitted-tail-replaced-on-reopen-after-discard-(documented)")
 		case r.cfg.Embedded && vk.Excluded(kfEmbedded):
-			kf = kfEmbedded
-		case r.discardsSinceOpen > 0 && vk.Excluded(kfDiscard):
-			kf = kfDiscard
+			vk.CountExcluded(kfEmbedded)
+			h.c.Label("precommitted-lost-on-reopen-(" + kfEmbedded + ")")
 		default:
-			h.failf(r, nil, "close+reopen lost durably precommitted transactions: before %s, after %s (discards since the previous open: %d)", before, after, r.discardsSinceOpen)
+			h.failf(r, nil, "close+reopen lost durably precommitted transactions: before %s, after %s (no discard above the committed id)", before, after)
 		}
-		vk.CountExcluded(kf)
-		h.c.Label("precommitted-lost-on-reopen-(" + kf + ")")
 		for id := after.p + 1; id <= before.p; id++ {
 			delete(r.forms, id)
 		}
@@ -1099,7 +1098,7 @@ func (h *harness) stepReopen(r *replica) {
 		h.c.Label("replica-retired-(" + kfStaleBl + ")")
 		return
 	}
-	if r.discardsSinceOpen > 0 {
+	if stale {
 		// what is found after the committed transactions may be what was precommitted before a discard
 		for id := after.c + 1; id <= after.p; id++ {
 			delete(r.forms, id)
@@ -1109,7 +1108,6 @@ func (h *harness) stepReopen(r *replica) {
 			r.forgedAt = 0
 		}
 	}
-	r.discardsSinceOpen = 0
 	// transactions found after the committed ones: the primary's, or forged ones that were discarded before (documented:
 	// "discarding may need to be redone after re-opening the store")
 	for id := after.c + 1; id <= after.p; id++ {
@@ -1131,17 +1129,35 @@ func (h *harness) stepReopen(r *replica) {
 		if !r.discardedForged[id] && !anyBelow(r.discardedForged, id) {
 			h.failf(r, nil, "after reopen: precommitted tx %d is not the primary's and was never accepted as a forged one: %+v", id, hdr)
 		}
-		h.c.Label("discarded-forged-tx-back-after-reopen")
+		// the replicator's reaction to "replica precommit state diverged": discard the tail again, fetch again
+		h.c.Label("discarded-forged-tx-back-after-reopen-(discarded-again)")
 		if _, err := r.st.DiscardPrecommittedTxsSince(id); err != nil {
 			h.failf(r, nil, "after reopen: DiscardPrecommittedTxsSince(%d): %v", id, err)
 		}
-		r.discardsSinceOpen++
+		r.discardPoints = append(r.discardPoints, id)
+		r.refused++
+		r.pendingRefusal = true
 		for j := id; j <= after.p; j++ {
 			delete(r.forms, j)
 		}
 		break
 	}
 	h.verifyAll(r, "after reopen")
+}
+
+// staleTail: DiscardPrecommittedTxsSince does not truncate the tx log ("if the store is reopened some precommitted
+// transactions may be reloaded. Discarding may need to be redone after re-opening the store"): until the replica commits
+// past a discard point, a restart finds the discarded records first and what was precommitted after them is not reloaded.
+// The harness then does what the replicator does: discards the diverging tail again and delivers the primary's stream.
+func (r *replica) staleTail(committed uint64) bool {
+	keep := r.discardPoints[:0]
+	for _, x := range r.discardPoints {
+		if x > committed {
+			keep = append(keep, x)
+		}
+	}
+	r.discardPoints = keep
+	return len(keep) > 0
 }
 
 func anyBelow(m map[uint64]bool, id uint64) bool {
@@ -1467,7 +1483,7 @@ func (h *harness) divergenceEpilogue(r *replica, s rstate) {
 		}
 		r.discardedForged[f] = true
 		r.forgedAt = 0
-		r.discardsSinceOpen++
+		r.discardPoints = append(r.discardPoints, f)
 		h.c.Label("forged-tx-discarded")
 		h.verifyState(r, "after discarding the forged tx")
 		r.refused++
